@@ -2,7 +2,7 @@
 from ..rules import delivery, flow
 from .common import declare
 
-RULES = ['FANOUT', 'EMIT-SIG', 'PASS-VALUE', 'FIFO-END', 'SWAP-ATOMIC', 'FLUSH-RESETS', 'STATE-PER-INSTANCE', 'FLAT-RETURN', 'PROPAGATE']
+RULES = ['FANOUT', 'EMIT-SIG', 'PASS-VALUE', 'FIFO-END', 'SWAP-ATOMIC', 'FLUSH-RESETS', 'STATE-PER-INSTANCE', 'FRESH-READ', 'FLAT-RETURN', 'PROPAGATE']
 FLOORS = {'FANOUT': 3, 'EMIT-SIG': 30, 'PASS-VALUE': 14, 'FIFO-END': 10, 'SWAP-ATOMIC': 6, 'FLAT-RETURN': 20, 'PROPAGATE': 30}
 CATALOGUE = ('Stream', 'map', 'starmap', 'filter', 'accumulate', 'slice', 'partition', 'partition_unique',
              'sliding_window', 'unique', 'flatten', 'pluck', 'collect', 'union', 'zip', 'combine_latest', 'zip_latest')
@@ -13,7 +13,8 @@ META = {
              "pass-through of the very element (PASS-VALUE), FIFO ends of every taint-discovered buffer (FIFO-END), atomic "
              "flush (SWAP-ATOMIC), and lossless concatenation of downstream results (FLAT-RETURN/PROPAGATE). Necessary "
              "conditions of 'nothing lost, duplicated or reordered'; each node's list-level function (partition sizes, LRU "
-             "eviction, pack_literals, emit_on membership, slice arithmetic) is value-level and not decided.",
+             "eviction, pack_literals, emit_on membership, slice arithmetic) is value-level and not decided."
+             " Added after independently seeded changes: per-instance node state (STATE-PER-INSTANCE: no mutable default argument or class-level container becomes a buffer), FLUSH-RESETS, and FRESH-READ (emission arguments are read after the last store into their container).",
     'note': "Trusted: CPython ast; the signature table SIG and PASS_THROUGH table in sa/rules/delivery.py (printed in evidence).",
     'technique': "static analysis: path enumeration + taint-discovered buffer fields + signature table (FANOUT, EMIT-SIG, "
                  "PASS-VALUE, FIFO-END, SWAP-ATOMIC, FLAT-RETURN, PROPAGATE)",
@@ -34,6 +35,7 @@ def run(ctx, R):
     delivery.check_fifo_end(ctx, R, core)
     delivery.check_swap_atomic(ctx, R, core)
     delivery.check_flush_resets(ctx, R, core)
+    delivery.check_fresh_read(ctx, R, core)
     delivery.check_state_per_instance(ctx, R, [c for c in M.nodes if c.module.name in ('streamz.core', 'streamz.sinks', 'streamz.sources', 'streamz.dask')])
     flow.check_flat_return(ctx, R, core)
     flow.check_propagate(ctx, R, modules=('streamz.core', 'streamz.sinks'), note_modules=())
